@@ -34,12 +34,13 @@
     MISSING: [spelling_irrelevant].  It follows from [parse_spell] once the evaluator model
     (Model/XPathEval.v, property C05) is shown to respect [≈]; until then that half is
     established by the failing-input search of checks/C08.py on the real [query] (every
-    generated spelling pair is evaluated on documents).  Also not proved: that [paren] and
-    [abbreviate] (the canonical spellings computed in Spec/XPathSyntax.v) always yield
-    derivable, equivalent trees -- the check validates them on every generated tree. *)
+    generated spelling pair is evaluated on documents).  Also not proved: that [abbreviate]
+    (every abbreviation that applies, Spec/XPathSyntax.v) yields a derivable, equivalent tree --
+    the check validates it on every generated tree; for [paren] (minimal parentheses) this IS
+    proved: [every_tree_has_a_spelling], [parse_spell_minimal]. *)
 From Coq Require Import List NArith Arith Bool.
 From XmlRs Require Import Base.CPred Spec.XPathSyntax Model.Peg Model.XPathAst
-  Model.ParseActionsXPath Model.XPathAstAbs Proofs.XPathParseExpr Proofs.XPathParseMain Proofs.XPathParsePrecedence.
+  Model.ParseActionsXPath Model.XPathAstAbs Proofs.XPathParseExpr Proofs.XPathParseMain Proofs.XPathSyntaxLemmas Proofs.XPathParsePrecedence.
 Import ListNotations.
 
 (** the parser of XPath expressions terminates on every input (parser half of C06) *)
@@ -61,6 +62,18 @@ Theorem parse_spell : forall (a : xexpr) (sp : spelling),
   ok_spelling a sp -> no_fname_case (surface sp) = true ->
   exists e, parse_expr (spell a sp) = POk e [] /\ abs_or e ≈ a.
 Proof. exact parse_spell_proof. Qed.
+
+(** the hypothesis [ok_spelling] is satisfiable for every tree with lexically valid leaves *)
+Theorem every_tree_has_a_spelling : forall (a : xexpr) (w : wtree),
+  leaves_ok a = true -> ws_ok w = true -> ok_spelling a {| surface := paren a; white := w |}.
+Proof. exact every_tree_has_a_spelling_proof. Qed.
+
+(** precedence in general: the spelling of ANY tree with only the parentheses the grammar demands
+    ([paren]: minimal parentheses) parses back to that tree *)
+Theorem parse_spell_minimal : forall (a : xexpr) (w : wtree),
+  leaves_ok a = true -> no_fname_case a = true -> ws_ok w = true ->
+  exists e, parse_expr (spell_surface (paren a) w) = POk e [] /\ abs_or e ≈ a.
+Proof. exact parse_spell_minimal_proof. Qed.
 
 (** rung 1 of the ladder *)
 Theorem parse_spell_surface_operators : forall (a : xexpr) (w : wtree),
@@ -129,6 +142,8 @@ Proof. exact fname_case_refuted_proof. Qed.
 Print Assumptions xpath_parse_terminates.
 Print Assumptions parse_spell_surface.
 Print Assumptions parse_spell.
+Print Assumptions every_tree_has_a_spelling.
+Print Assumptions parse_spell_minimal.
 Print Assumptions parse_spell_surface_operators.
 Print Assumptions parse_spell_partial_operators.
 Print Assumptions precedence_right.
